@@ -93,8 +93,17 @@ int main(int argc,char **argv){
           else if(ov_time_total(&vf,k)!=(double)gn[k]/grate[k])snprintf(res,sizeof(res),"bad:time_total:link%d",k);
           else if((long)ov_raw_total(&vf,k)<=0||(long)ov_raw_total(&vf,k)>L[k]->len)snprintf(res,sizeof(res),"bad:raw_total:link%d:%ld",k,(long)ov_raw_total(&vf,k));
           else{
-            snprintf(want,sizeof(want),"TITLE=%s",gtag[k]);
-            if(!vc||vc->comments!=1||strcmp(vc->user_comments[0],want))snprintf(res,sizeof(res),"bad:comment:link%d",k);
+            /* tag "name" : one comment TITLE=name;  tag "name+N" : a second entry COVERART=<N pattern bytes> (zoo.big_comment) */
+            char tg[100]; long extra=-1; char *plus; int cbad=0;
+            snprintf(tg,sizeof(tg),"%s",gtag[k]); plus=strchr(tg,'+'); if(plus){ *plus=0; extra=atol(plus+1); }
+            snprintf(want,sizeof(want),"TITLE=%s",tg);
+            if(!vc||vc->comments!=(extra>=0?2:1)||strcmp(vc->user_comments[0],want))cbad=1;
+            else if(extra>=0){
+              long i2; const unsigned char *c=(const unsigned char*)vc->user_comments[1];
+              if(vc->comment_lengths[1]!=extra+9||memcmp(c,"COVERART=",9))cbad=1;
+              else for(i2=0;i2<extra;i2++)if(c[9+i2]!=(unsigned char)((i2*7+1)%251+1)){ cbad=1; break; }
+            }
+            if(cbad)snprintf(res,sizeof(res),"bad:comment:link%d",k);
             else if(!vc->vendor||strcmp(vc->vendor,L[k]->vendor))snprintf(res,sizeof(res),"bad:vendor:link%d",k);
           }
           tot+=gn[k]; ttot+=(double)gn[k]/grate[k];
